@@ -101,7 +101,7 @@ def check(pid, tier='quick', seed=0):
     undecided = [v for v in obligations if v.status == 'undecided']
     # ---- bounded part
     budget = getattr(cfg, 'BOUNDED_TIMEOUT', {}).get(tier, 900 if tier == 'quick' else 7200)
-    bounded = run_bounded(pid, tier, seed, budget)
+    bounded = run_bounded(pid, tier, seed, budget + 240)      # the runner stops itself at `budget` and reports what it has; the grace period is for its shutdown
     violations = []
     known_lines = []
     if bounded and 'error' in bounded:
